@@ -84,8 +84,9 @@ def check_axes(run, A):
                                       f'other slices', construct=f'R-ELL::{fn.qual}::axisless-guard::{cname}')
                     continue      # assertions / guards in front of a raise
                 n += 1
-                if (fn.qual, cname) in AXISLESS_OK:
-                    run.ok('R-ELL', f'{short}: {cname.split(".")[-1]}() over everything [listed]', fn.loc(t.node), AXISLESS_OK[(fn.qual, cname)])
+                from ..walk import canon as _canon
+                if (fn.qual, _canon(cname)) in AXISLESS_OK:
+                    run.ok('R-ELL', f'{short}: {cname.split(".")[-1]}() over everything [listed]', fn.loc(t.node), AXISLESS_OK[(fn.qual, _canon(cname))])
                     continue
                 if cname in ('numpy.linalg.norm',):
                     run.violation('R-ELL', f'{short}: norm without axis', fn.loc(t.node), f'`{norm_stmt(t.node)}` mixes all leading indices', construct=f'R-ELL::{fn.qual}::axisless::{cname}')
